@@ -10,6 +10,7 @@ import Driver.Signal
 import Driver.FlacC
 import Driver.OpenFile
 import Driver.Id3Date
+import Driver.Id3Convert
 import Driver.Dict
 import Driver.Id3Spec
 import Driver.TagCodec
@@ -43,6 +44,8 @@ def dispatch (line : String) : String :=
     | "flacc" => flaccOp a
     | "open" => openOp a
     | "id3date" => id3dateOp a
+    | "id3v1" => id3v1Op a
+    | "id3conv" => id3convOp a
     | "dict" => dictOp a
     | "id3spec" => id3specOp a
     | "tagc" => tagcOp a
@@ -52,6 +55,7 @@ def dispatch (line : String) : String :=
     | "apef" => apefOp a
     | "iff" => iffOp a
     | "iffm" => iffmOp a
+    | "iffload" => iffloadOp a
     | "dsf" => dsfOp a
     | "asf" => asfOp a
     | "ogginject" => ogginjectOp a
